@@ -165,7 +165,11 @@ func runC12(c *core.Ctx) {
 				_ = info
 				return true
 			})
-			o.Require(strings.Join(order, ",") == "invalidConsume3,invalidConsume2,invalidConsume1,invalidConsume0", "%s handles the consume cases in order %v, want 3,2,1,0", fname, order)
+			if len(order) == 0 {
+				o.Unrec("%s does not handle the consume cases in a switch (computed count?): the number of bytes consumed is not decided", fname)
+			} else {
+				o.Require(strings.Join(order, ",") == "invalidConsume3,invalidConsume2,invalidConsume1,invalidConsume0", "%s handles the consume cases in order %v, want 3,2,1,0", fname, order)
+			}
 		}
 	})
 	c.Check("C12-R3", pkg+".(*Codec).Decode/bounds", "Decode never reads past the input: every s[0] is dominated by a non-empty test, and at least one byte is consumed before any return that follows a read", func(o *core.Ob) {
@@ -299,10 +303,20 @@ func runC12(c *core.Ctx) {
 			if len(rs.Results) != 3 || core.IsNil(info, rs.Results[2]) {
 				continue
 			}
-			f := factsAt(r)
-			if f["!0"] && f["!all"] {
-				okDefault = true
-				o.At(fn.Site(rs, "mixed children rejected"))
+			// the error may be chosen earlier (a helper folded in: err = errX; ...; if err != nil { return }):
+			// the facts that hold where it is chosen count
+			for _, vc := range valueCases(g, r, rs.Results[2], 2) {
+				if core.IsNil(info, vc.Expr) {
+					continue
+				}
+				f := factsAt(vc.V)
+				for k, v := range factsAt(r) {
+					f[k] = f[k] || v
+				}
+				if f["!0"] && f["!all"] {
+					okDefault = true
+					o.At(fn.Site(vc.V.AST, "mixed children rejected"))
+				}
 			}
 		}
 		o.Require(okDefault, "mixed leaf/non-leaf children do not lead to an error")
